@@ -652,12 +652,14 @@ class KeychainSqlite3(Keychain):
         formal_name = Name.normalize(name)
         name = Name.to_bytes(name)
         id_name = formal_name[:-2]
+        self._signer_cache = {}
         key = self[id_name][formal_name]
+        # Remove the private key first: if a later step fails, the key is still listed
+        # and deleting it again completes the removal.
+        self.tpm.delete_key(formal_name)
         self.conn.execute('DELETE FROM certificates WHERE key_id=?', (key.row_id,))
         self.conn.execute('DELETE FROM keys WHERE key_name=?', (name,))
         self.conn.commit()
-        self.tpm.delete_key(formal_name)
-        self._signer_cache = {}
 
     def del_cert(self, name: NonStrictName):
         """
